@@ -3,7 +3,7 @@
    Models: Model/QuicVarint.v (quicvarint/varint.go), Model/H2Frame.v (internal/http2/frame.go),
    Model/H3Frame.v (internal/http3/frames.go, headers.go); RFC 9114 transcription: Model/H3Spec.v. *)
 From ReqV Require Import Lib.Bytes Lib.BigEndian Model.QuicVarint Proofs.QuicVarintProofs.
-From ReqV Require Import Model.H2Frame Proofs.H2FrameProofs Proofs.H2OrderProofs.
+From ReqV Require Import Model.H2Frame Proofs.H2FrameProofs Proofs.H2OrderProofs Proofs.H2ErrorProofs.
 From ReqV Require Import Model.H3Frame Model.H3Spec Proofs.H3FrameProofs Proofs.H3FieldProofs.
 From Coq Require Import Permutation.
 Open Scope N_scope.
@@ -113,6 +113,41 @@ Theorem C05_h2_parsed_header_sid_nonzero : forall h p f, parse_frame h p = Ok f 
   is_hdr h \/ is_cont h -> fh_sid h <> 0.
 Proof. exact parsed_header_sid_nonzero. Qed.
 Print Assumptions C05_h2_parsed_header_sid_nonzero.
+
+(* which error a malformed frame yields (RFC 7540 §6 as decided by x/net's parsers): five classes; a
+   stream error names the frame's own non-zero stream with PROTOCOL_ERROR and comes from HEADERS
+   (padding overrun) or WINDOW_UPDATE (zero increment) only; FLOW_CONTROL_ERROR only from SETTINGS *)
+Theorem C05_h2_error_classes : forall h p e, parse_frame h p = Err e ->
+  match e with
+  | EConn c => c = ErrCodeProtocol \/ c = ErrCodeFrameSize \/ (c = ErrCodeFlowControl /\ fh_type h = FrameSettings)
+  | EStream s c => s = fh_sid h /\ s <> 0 /\ c = ErrCodeProtocol /\
+                   (fh_type h = FrameHeaders \/ fh_type h = FrameWindowUpdate)
+  | EUnexpectedEOF => padded_type (fh_type h)
+  | EEOF | EFrameTooLarge => False
+  end.
+Proof. exact h2_error_classes. Qed.
+Print Assumptions C05_h2_error_classes.
+
+(* the stream-0 rules and the fixed-length rules of §6 are enforced with a connection error ... *)
+Theorem C05_h2_stream_rule_enforced : forall h p, stream_rule_violated h ->
+  exists c, parse_frame h p = Err (EConn c) /\ (c = ErrCodeProtocol \/ c = ErrCodeFrameSize).
+Proof. exact h2_stream_rule_enforced. Qed.
+Print Assumptions C05_h2_stream_rule_enforced.
+
+Theorem C05_h2_length_rule_enforced : forall h p, length_rule_violated h p ->
+  exists c, parse_frame h p = Err (EConn c) /\ (c = ErrCodeProtocol \/ c = ErrCodeFrameSize).
+Proof. exact h2_length_rule_enforced. Qed.
+Print Assumptions C05_h2_length_rule_enforced.
+
+(* ... and a frame respecting both fails only on padding (overrun / missing prefix), a zero window
+   increment, or an INITIAL_WINDOW_SIZE above 2^31-1 *)
+Theorem C05_h2_wellshaped_errors : forall h p e, ~ stream_rule_violated h -> ~ length_rule_violated h p ->
+  parse_frame h p = Err e ->
+  (padded_type (fh_type h) /\ (e = EUnexpectedEOF \/ e = EConn ErrCodeProtocol \/ e = EStream (fh_sid h) ErrCodeProtocol)) \/
+  (fh_type h = FrameWindowUpdate /\ (e = EConn ErrCodeProtocol \/ e = EStream (fh_sid h) ErrCodeProtocol)) \/
+  (fh_type h = FrameSettings /\ e = EConn ErrCodeFlowControl).
+Proof. exact h2_wellshaped_errors. Qed.
+Print Assumptions C05_h2_wellshaped_errors.
 
 (* ---------- HTTP/3 frames (RFC 9114 §7.1, §7.2.4; internal/http3/frames.go) ---------- *)
 
